@@ -270,9 +270,13 @@ def action_env(o, outfile=None, outdir=None, samples=None):
     if "max" in o: e["INPUT_MAX_OPCODES"] = str(o["max"])
     if o.get("mutators"): e["INPUT_MUTATORS"] = ", ".join(o["mutators"]) if len(o["mutators"]) % 2 else " ".join(o["mutators"])
     if "rate" in o: e["INPUT_MUTATION_RATE"] = repr(o["rate"])
-    e["INPUT_UNSAFE_MUTATIONS"] = "true" if o.get("unsafe") else "false"
-    e["INPUT_ALLOW_EXT"] = "true" if o.get("ext") else "false"
-    e["INPUT_ALLOW_BUFFER"] = "yes" if o.get("buf") else ""
+    # the spellings action.yml users write for booleans (documented as true/false; the wrapper also takes 1/yes)
+    k = o.get("style", 0)
+    truthy = ["true", "TRUE", "True", "1", "yes", "YES", "Yes"]
+    falsy = ["false", "", "0", "no", "False", "off"]
+    e["INPUT_UNSAFE_MUTATIONS"] = truthy[k % 7] if o.get("unsafe") else falsy[k % 6]
+    e["INPUT_ALLOW_EXT"] = truthy[(k + 3) % 7] if o.get("ext") else falsy[(k + 2) % 6]
+    e["INPUT_ALLOW_BUFFER"] = truthy[(k + 5) % 7] if o.get("buf") else falsy[(k + 4) % 6]
     if outfile: e["INPUT_OUTPUT_FILE"] = outfile
     return e
 
@@ -308,12 +312,27 @@ def run_action(binary, n, rnd, out):
                 ok = rc == 0 and names == sorted("%d.pkl" % i for i in range(samples)) and all(open(os.path.join(d, x), "rb").read() == want for x in names)
                 got = b"".join(open(os.path.join(d, x), "rb").read() for x in names[:1]) if names else b""
                 what = "dir=%s samples=%d" % (os.path.basename(d).replace(" ", "_"), samples)
+            elif k % 5 == 4 and " " not in name and "*" not in name and "[" not in name and not name.startswith("-"):
+                # the wrapper's raw mode: one `args` input handed to the tool as is
+                env["INPUT_ARGS"] = " ".join(cli_args(o) + [f])
+                rc, so, se = sh(["bash", script], env=env, cwd=tmp)
+                got = open(f, "rb").read() if os.path.isfile(f) else b""
+                ok = rc == 0 and got == want
+                what = "raw-args file=%s" % name
             else:
                 env.update(action_env(o, outfile=f))
                 rc, so, se = sh(["bash", script], env=env, cwd=tmp)
                 got = open(f, "rb").read() if os.path.isfile(f) else b""
                 ok = rc == 0 and got == want and open(decoy, "rb").read() == b"decoy" and open(os.path.join(tmp, "oxt.pkl"), "rb").read() == b"decoy"
                 what = "file=%s" % name.replace(" ", "_")
+            if k % 11 == 10:
+                # both outputs named: the wrapper must refuse (documented), not pick one silently
+                env2 = dict(env); env2.pop("INPUT_ARGS", None)
+                env2.update(action_env(o, outfile=os.path.join(tmp, "both.pkl"), outdir=os.path.join(tmp, "bothdir"), samples=1))
+                rc2, so2, se2 = sh(["bash", script], env=env2, cwd=tmp)
+                ok2 = rc2 != 0 and not os.path.exists(os.path.join(tmp, "both.pkl"))
+                out.append("front action %s both_output_file_and_dir options=%s%s" % ("ok" if ok2 else "FAIL", json.dumps(o, sort_keys=True).replace(" ", ""),
+                           "" if ok2 else " rc=%d (must refuse)" % rc2))
             out.append("front action %s %s options=%s%s" % ("ok" if ok else "FAIL", what, json.dumps(o, sort_keys=True).replace(" ", ""),
                        "" if ok else " rc=%d wrapper_len=%d lib_len=%d stderr=%s" % (rc, len(got), len(want), se.decode()[-160:].replace("\n", "|").replace(" ", "_"))))
         finally:
